@@ -204,6 +204,42 @@ def updateState (st : State) (height : Int) (updates : List Val) : StepRes :=
       .ok { st with lastBlockHeight := height, nextValidators := nv',
                     validators := st.nextValidators, lastValidators := st.validators, lhvc := lhvc }
 
+/-! ### Rollback -/
+
+inductive RbRes
+  | ok (db : DB) (st : State)
+  | errNoBlock     -- "block at height %d not found"
+  | errLoad        -- LoadValidators(rollbackHeight) failed
+  | errParams      -- LoadConsensusParams(rollbackHeight+1) failed
+  | errSave
+  | panic
+deriving Repr
+
+/-- `state.Rollback(bs, ss)` (validator and consensus-param part) when the block store is at the
+state's height: the state of height n is overwritten by the state of height n-1 rebuilt from the
+invalid state's own fields and `LoadValidators(n-1)`.  Blocks exist from the initial height on.
+`valChangeHeight`/`paramsChangeHeight` are clamped to `rollbackHeight + 1` as in the source. -/
+def rollback (db : DB) (st : State) : RbRes :=
+  let rh := st.lastBlockHeight - 1
+  if rh < st.initialHeight then .errNoBlock else
+  match loadValidators db.vals rh with
+  | .ok prevLast =>
+    match db.params.get (rh + 1) with
+    | none => .errParams
+    | some c =>
+      if c ≠ rh + 1 ∧ (db.params.get c).isNone then .errParams else
+      let vch := if st.lhvc > rh then rh + 1 else st.lhvc
+      let pch := if st.lhpc > rh then rh + 1 else st.lhpc
+      let st' : State :=
+        { st with lastBlockHeight := rh, nextValidators := st.validators,
+                  validators := st.lastValidators, lastValidators := prevLast,
+                  lhvc := vch, lhpc := pch }
+      match save db st' with
+      | none => .errSave
+      | some db' => .ok db' st'
+  | .panic => .panic
+  | _ => .errLoad
+
 /-! ### PruneStates -/
 
 inductive PruneRes
